@@ -120,6 +120,16 @@ impl Scenario for FailStop {
             let pol = Policy { rd: Xfer::Full, wr: Xfer::Full, pend, seed: rng.next_u64() };
             return to_value(&FaultCase { call, face: Face::Async, pol, kinds: vec![FKind::Other], cap: if tier == Tier::Quick { 300 } else { 1500 }, only: None, sub_seed: rng.next_u64() });
         }
+        if run < 36 {
+            // directory writes of more than 2^20 entries (runs 32-35: brotli, gzip, zstd sync; zstd
+            // async), few fault points: the first ones, the last ones and a handful in between
+            let ic = [3u8, 2, 4, 4][(run - 32) as usize];
+            let face = if run == 35 { Face::Async } else { Face::Sync };
+            let call = Call::DirWriteGen { n: (1 << 20) + 1 + rng.below(3000) as u32, seed: rng.next_u64(), ic };
+            let cap = if tier == Tier::Quick { if ic == 3 { 8 } else { 24 } } else { 64 };
+            let pol = if ic == 3 { Policy::plain() } else { Policy { rd: Xfer::Full, wr: Xfer::Fixed(1 << 16), pend: Pend::NEVER, seed: rng.next_u64() } };
+            return to_value(&FaultCase { call, face, pol, kinds: vec![FKind::Other], cap, only: None, sub_seed: rng.next_u64() });
+        }
         let call = draw_fault_call(rng, tier);
         let face = Face::draw(rng);
         let pol = match rng.below(10) {
@@ -213,7 +223,7 @@ impl Scenario for FailStop {
             }
         }
         // exploratory, never part of the verdict: writes fail but seeks keep working
-        if matches!(c.call, Call::Write { .. } | Call::DirWrite { .. }) && c.only.is_none() {
+        if matches!(c.call, Call::Write { .. } | Call::DirWrite { .. }) && c.only.is_none() && !matches!(c.call, Call::DirWriteGen { .. }) {
             for k in [n / 3, n / 2, n.saturating_sub(2)] {
                 let mut sub = Ctx::default();
                 if let Ok((o, _)) = perform_p(&c.call, &prep, c.face, &c.pol, Fault::WritesFail { at: k }, &mut sub) {
